@@ -102,6 +102,11 @@ func ext۰reflect۰rtype۰Elem(fr *frame, args []value) value {
 	}).Elem()})
 }
 
+func ext۰reflect۰rtype۰Key(fr *frame, args []value) value {
+	// Signature: func (t reflect.rtype) reflect.Type
+	return makeReflectType(rtype{args[0].(rtype).t.Underlying().(*types.Map).Key()})
+}
+
 func ext۰reflect۰rtype۰Field(fr *frame, args []value) value {
 	// Signature: func (t reflect.rtype, i int) reflect.StructField
 	st := args[0].(rtype).t.Underlying().(*types.Struct)
@@ -304,8 +309,8 @@ func ext۰reflect۰Value۰Len(fr *frame, args []value) value {
 		return len(v)
 	case array:
 		return len(v)
-	case chan value:
-		return cap(v)
+	case *schan:
+		return v.cap
 	case []value:
 		return len(v)
 	case *hashmap:
@@ -364,8 +369,8 @@ func ext۰reflect۰Value۰Pointer(fr *frame, args []value) value {
 	switch v := rV2V(args[0]).(type) {
 	case *value:
 		return uintptr(unsafe.Pointer(v))
-	case chan value:
-		return reflect.ValueOf(v).Pointer()
+	case *schan:
+		return uintptr(unsafe.Pointer(v))
 	case []value:
 		return reflect.ValueOf(v).Pointer()
 	case *hashmap:
@@ -479,7 +484,7 @@ func ext۰reflect۰Value۰IsNil(fr *frame, args []value) value {
 	switch x := rV2V(args[0]).(type) {
 	case *value:
 		return x == nil
-	case chan value:
+	case *schan:
 		return x == nil
 	case *hashmap:
 		return x == nil
@@ -615,6 +620,7 @@ func initReflect(i *interpreter) {
 		"Field":     newMethod(i.reflectPackage, rtypeType, "Field"),
 		"In":        newMethod(i.reflectPackage, rtypeType, "In"),
 		"Kind":      newMethod(i.reflectPackage, rtypeType, "Kind"),
+		"Key":       newMethod(i.reflectPackage, rtypeType, "Key"),
 		"NumField":  newMethod(i.reflectPackage, rtypeType, "NumField"),
 		"NumIn":     newMethod(i.reflectPackage, rtypeType, "NumIn"),
 		"NumMethod": newMethod(i.reflectPackage, rtypeType, "NumMethod"),
